@@ -706,10 +706,29 @@ fn placeholders(req: &Value) -> Value {
                 memory_reference: MemoryReference { name: "ro".to_string(), index: 0 },
             }),
             "measure-to" => Instruction::Measurement(Measurement { name: None, qubit: qubits[0].clone(), target: Some(MemoryReference { name: "ro".to_string(), index: 0 }) }),
+            "defcal" => {
+                // DEFCAL X <qubits>: FENCE <body_qubits>  (placeholders allowed in both places)
+                let mut body = vec![];
+                for q in item["body_qubits"].as_array().map(|v| v.as_slice()).unwrap_or(&[]) {
+                    let a = q.as_array().unwrap();
+                    if a[0] == "fixed" {
+                        body.push(Qubit::Fixed(a[1].as_u64().unwrap()));
+                    } else {
+                        body.push(Qubit::Placeholder(qph.entry(a[1].as_u64().unwrap()).or_default().clone()));
+                    }
+                }
+                Instruction::CalibrationDefinition(quil_rs::instruction::CalibrationDefinition {
+                    identifier: quil_rs::instruction::CalibrationIdentifier { modifiers: vec![], name: "X".to_string(), parameters: vec![], qubits },
+                    instructions: vec![Instruction::Fence(Fence { qubits: body })],
+                })
+            }
             k => return json!({"unknown_kind": k}),
         };
         program.add_instruction(ins);
     }
+    let mentioned = |p: &Program| -> Vec<Value> { p.to_instructions().iter().flat_map(|i| i.get_qubits().into_iter().map(dbg).collect::<Vec<_>>()).collect() };
+    let used_before: Vec<Value> = program.get_used_qubits().iter().map(dbg).collect();
+    let mentioned_before = mentioned(&program);
     let before: Vec<Value> = program.body_instructions().map(dbg).collect();
     if req["quil_only"].as_bool().unwrap_or(false) {
         // serialization of the unresolved body (C04): per instruction and for the whole program
@@ -741,7 +760,8 @@ fn placeholders(req: &Value) -> Value {
         );
     }
     let after: Vec<Value> = program.body_instructions().map(dbg).collect();
-    json!({"before": before, "after": after, "used_qubits": program.get_used_qubits().iter().map(dbg).collect::<Vec<_>>()})
+    json!({"before": before, "after": after, "used_qubits": program.get_used_qubits().iter().map(dbg).collect::<Vec<_>>(),
+           "used_before": used_before, "mentioned_before": mentioned_before, "mentioned_after": mentioned(&program)})
 }
 
 pub fn run(op: &str, req: &Value) -> Value {
